@@ -57,7 +57,7 @@ ADDSETS = {
     "counter": ["collections.Counter", "pickle.loads"],
 }
 # what else is armed on top of the ML environment while the probe runs
-OVERLAYS = ["none", "global-check", "context", "reactivated", "preloaded", "failed-import-first"]   # preloaded: an earlier activation that
+OVERLAYS = ["none", "global-check", "context", "reactivated", "preloaded", "failed-import-first", "failed-reactivation"]   # preloaded: an earlier activation that
 #                                                   allowed everything really loaded the same payload, then was removed      # reactivated: another activation (with
 #                                                                     other additions) precedes, not removed
 
@@ -237,6 +237,19 @@ def run_case(ctx, mods, base, cache, chain, kind, final, entry, aname, overlay="
                 pickle.load(io.BytesIO(blob))
             except BaseException:
                 pass
+    if overlay == "failed-reactivation":
+        # a second activation whose additions are malformed after a few well-formed, not allow-listed ones; if it is
+        # refused the first environment is still the one in force - with its own additions only
+        try:
+            hook.activate_safe_ml_environment(also_allow=["vp_sink.hit", "string.Formatter", "decimal.Decimal", "pickle.Unpickler",
+                                                          "collections.Counter", "nodot", None, 7])
+            refused = False
+        except BaseException:
+            refused = True
+            agg.count("reactivations_refused")
+        if not refused:
+            # accepted (validation happens at load time on this tree): put the case's own environment back
+            hook.activate_safe_ml_environment(also_allow=list(adds) if adds else None)
     cm = None
     try:
         if overlay == "global-check":
